@@ -560,8 +560,15 @@ fn number() -> impl Strategy<Value = u64> {
     ]
 }
 
+/// Strings that a well-meaning normaliser might treat as "nothing", "root", "default" or a number.
+pub const ODD_STRINGS: [&str; 40] = [
+    "/", "//", "///", ".", "..", "./", "/.", "../", "a/", "/a", "a//b", " ", "  ", "\t", " a", "a ", "-", "--", "-1", "+0", "0", "00", "1", "~", "*", "?", "#",
+    "%", "%20", ":", "::", "=", "==", "null", "none", "all", "any", "file:///", "\u{3a9}", "\u{feff}",
+];
+
 fn plain_string() -> impl Strategy<Value = String> {
     prop_oneof![
+        2 => (0..ODD_STRINGS.len()).prop_map(|i| ODD_STRINGS[i].to_string()),
         1 => Just(String::new()),
         4 => "[a-zA-Z0-9/._-]{1,16}",
         3 => "[a-z ]{1,12}",
@@ -643,6 +650,29 @@ fn grid(_tier: Tier) -> Box<dyn Iterator<Item = Case>> {
     }))
 }
 
+/// every row x every odd string in the first string slot (the other parameters fixed)
+fn string_grid(_tier: Tier) -> Box<dyn Iterator<Item = Case>> {
+    Box::new((0..ROWS as u16).flat_map(move |row| {
+        ODD_STRINGS.iter().enumerate().map(move |(i, s)| Case {
+            row,
+            p: Params {
+                a: 1,
+                b: 3,
+                c: 2,
+                s1: s.to_string(),
+                s2: ODD_STRINGS[(i + 7) % ODD_STRINGS.len()].to_string(),
+                s3: "plain".into(),
+                lo: Bk::Inc,
+                hi: Bk::Exc,
+                secs: 2,
+                nanos: 0,
+                flag: (i % 4) as u8,
+                tags: vec![row.wrapping_mul(977), 3],
+            },
+        })
+    }))
+}
+
 pub fn property(_tier: Tier) -> Property {
     Property {
         id: "C15",
@@ -652,6 +682,12 @@ pub fn property(_tier: Tier) -> Property {
                 name: "grid",
                 rule: "96 rows (one per constructor/builder path of every predefined command, incl. the builder methods documented to overwrite on a second call) x a,b in {0,1,2,99,100,MAX-1,MAX} x start/end bound kind in {included, excluded, unbounded} x 4 flag values selecting enum variants / strings (empty, blank, plain, multi-byte+tab) / duration magnitudes with sub-millisecond nanos; non-trivial = any boundary number, non-default bound kind, sub-ms duration, or empty/blank/non-ASCII string",
                 space: Box::new(grid),
+                check: Box::new(check),
+            }),
+            Box::new(ExhaustivePart {
+                name: "odd_strings",
+                rule: "every row x 40 strings a normaliser might treat as nothing/root/default/number (\"/\", \"//\", \".\", \"..\", blanks, \"-\", \"+0\", \"0\", \"*\", \"%20\", \"null\", \"any\", a BOM, ...) in the first string parameter (the second one cycles through the same list): the documented arguments must arrive verbatim; non-trivial = every case",
+                space: Box::new(string_grid),
                 check: Box::new(check),
             }),
             Box::new(RandomPart {
